@@ -32,3 +32,8 @@ PROPS["C20"] = {"pkgs": [(".", "TestVerif_C20")],
                 "trusted_base": ["the socket layer (transport.Net) and the random source are scripted by the harness; the model takes "
                                  "'bind refuses a bound port' as the environment's behaviour, which the harness also tries on real loopback TCP sockets"],
                 "assumptions": ["1 <= MinPort <= MaxPort <= 65535 as the property states"]}
+
+PROPS["C17"] = {"pkgs": [(".", "TestVerif_C17")],
+                "trusted_base": ["HMAC-SHA1, base64 and MD5 are symbolic in the model; the harness recomputes the expected password/key "
+                                 "with crypto/hmac and reports equality", "time.Now is testing/synctest's clock (starts 2000-01-01)"],
+                "assumptions": ["unix(now+duration) fits int64 (instants after 1970)", "forgery theorem: HMAC/base64/MD5 key derivation injective"]}
